@@ -12,6 +12,7 @@ var (
 	accSavings  = "Assets:Bank:Savings"
 	accCash     = "Assets:Portfolio:Broker:Cash"
 	accBaenk    = "Assets:Bänk"
+	accBank     = "Assets:Bank" // carries postings itself AND is the parent of Checking/Savings
 	accCard     = "Liabilities:Card"
 	accEquity   = "Equity:Equity"
 	accOpening  = "Equity:Opening"
@@ -20,7 +21,7 @@ var (
 	accFood     = "Expenses:Food"
 	accRent     = "Expenses:Rent:Flat"
 
-	allAccounts = []string{accChecking, accSavings, accCash, accBaenk, accCard, accEquity, accOpening, accSalary, accIncBank, accFood, accRent}
+	allAccounts = []string{accBank, accChecking, accSavings, accCash, accBaenk, accCard, accEquity, accOpening, accSalary, accIncBank, accFood, accRent}
 
 	// dates: Thursday, month end, month start, leap day (Saturday, month end), Monday, quarter end, quarter start
 	alphaDates = []string{"2020-01-30", "2020-01-31", "2020-02-01", "2020-02-29", "2020-03-02", "2020-03-31", "2020-04-01"}
@@ -55,6 +56,7 @@ func trxTemplates(date string, full bool) []jr.Dir {
 			jr.T(date, "zero", jr.B(accChecking, accFood, "0", "CHF")),
 			jr.T(date, "Bänk — ☕", jr.B(accBaenk, accFood, "1", "EUR")),
 			jr.T(date, "bonus", jr.B(accIncBank, accChecking, "-0.5", "CHF")),
+			jr.T(date, "inner", jr.B(accOpening, accBank, "5", "CHF")),
 			jr.Dir{Kind: jr.Trx, Date: date, Desc: "perf", HasPerf: true, Perf: []string{"USD"}, Books: []jr.Booking{jr.B(accSalary, accCash, "7", "USD")}},
 		)
 	}
